@@ -473,6 +473,52 @@ func c13(c *Ctx) {
 	}
 	r.Stat("error_tests", nTests)
 
+	// ---- R5 (clause) like is compared with like: a comparison between two reflect.Type counts compares parameter counts with
+	// parameter counts or result counts with result counts, never one with the other
+	nCnt := 0
+	for _, f := range p.Funcs {
+		if !inPk(relPkg(f)) || !strings.HasPrefix(pkgPathOf(f), Mod) || f.Blocks == nil {
+			continue
+		}
+		nInF := 0
+		eachInstr(f, func(i ssa.Instruction) {
+			bo, ok := i.(*ssa.BinOp)
+			if !ok || !isBool(bo.Type()) || !isIntegerType(bo.X.Type()) {
+				return
+			}
+			last := func(v ssa.Value) string {
+				v = resolveLocal(v)
+				for {
+					if b2, ok := v.(*ssa.BinOp); ok && (b2.Op == token.ADD || b2.Op == token.SUB) {
+						if _, isC := b2.Y.(*ssa.Const); isC {
+							v = resolveLocal(b2.X)
+							continue
+						}
+					}
+					break
+				}
+				c, ok := v.(*ssa.Call)
+				if !ok || !c.Call.IsInvoke() || !strings.HasSuffix(c.Call.Value.Type().String(), "reflect.Type") {
+					return ""
+				}
+				switch c.Call.Method.Name() {
+				case "NumIn", "NumOut":
+					return c.Call.Method.Name()
+				}
+				return ""
+			}
+			lx, ly := last(bo.X), last(bo.Y)
+			if lx == "" || ly == "" {
+				return
+			}
+			nCnt++
+			nInF++
+			r.Check(lx == ly, "C13.R5", "counts of the same kind compared in "+shortName(f)+" #"+itoa2(nInF), p.Pos(posOf(bo)), lx+" against "+ly,
+				"a count check compares the number of parameters of one signature with the number of results of the other ("+lx+" against "+ly+"): callbacks with too few or too many parameters pass the check, or well-formed ones are refused")
+		})
+	}
+	r.Stat("type_count_comparisons", nCnt)
+
 	// ---- R9 list converters: for a variadic function a list is refused exactly when it is too short to cover the fixed
 	// parameters — every failing return taken under the variadic flag and under a test of len(list) is entailed
 	// len(list) <= len(types)-2 by the conditions that lead to it
